@@ -264,6 +264,8 @@ def coq_eval_failing(tag, preamble, check_fn, cases, shard=250, timeout=900):
     shutil.rmtree(d, ignore_errors=True)
     os.makedirs(d, exist_ok=True)
     jobs = []
+    # the callers' shard sizes suit the quick tier; for thousands of cases keep the number of coqc start-ups bounded
+    shard = max(shard, -(-len(cases) // (NPROC * 8)))
     for si in range(0, len(cases), shard):
         chunk = cases[si:si + shard]
         fn = os.path.join(d, "cases_%s_%d.v" % (re.sub(r"\W", "_", tag), si // shard))
